@@ -1,13 +1,58 @@
 import VaxisModel.Model.TextField
 import VaxisModel.Model.TextInput
 import VaxisModel.Spec.Editor
+import VaxisModel.Lemmas.Editor
 
-/-! C17 — line editors behave like an ideal grapheme line editor. -/
+/-! C17 — line editors behave like an ideal grapheme line editor.
+
+`Spec.Editor` is the ideal editor (`text : List G`, `cursor ≤ text.length`).  The widget models are
+`Model.TextField` and `Model.TextInput`; `abs` maps a widget state to the ideal state, `specOf` /
+`meaningOf` give the ideal operation each API call / key binding stands for. -/
 namespace VaxisModel.Props.C17
-open VaxisModel.Model VaxisModel.Spec.Editor
+open VaxisModel.Model VaxisModel.Spec.Editor VaxisModel.Lemmas.Editor
 
-/-- `Reset` gives the empty ideal editor. -/
-theorem reset_empty {G : Type} (tf : TextField.TF G) : (TextField.reset tf).value = [] ∧ (TextField.reset tf).cursor = 0 := by
-  simp [TextField.reset]
+/-- `textfield_refines` (one step): from a state meeting the invariant (`n` = grapheme count,
+cursor within the text) every operation of the exported API — every key event through
+`HandleEvent`, `InsertStringAtCursor`, `CursorTo`, the three delete functions, `Reset` — keeps the
+invariant and is exactly the ideal operation on the abstract state. -/
+theorem textfield_step_refines {G : Type} [DecidableEq G] (isWord : G → Bool)
+    (tf : TextField.TF G) (op : TFOp G) (h : Inv tf) :
+    Inv (tfStep tf op).1 ∧ abs (tfStep tf op).1 = apply isWord (abs tf) (specOf op) :=
+  tfStep_refines isWord tf op h
+
+/-- `textfield_refines`: for all histories from any starting content, the widget holds the text and
+cursor of the ideal editor run on the corresponding ideal operations, and the cursor is within the
+text. -/
+theorem textfield_refines {G : Type} [DecidableEq G] (isWord : G → Bool)
+    (start : List G) (ops : List (TFOp G)) :
+    let tf0 := TextField.insertString TextField.new start
+    let tf := tfRun tf0 ops
+    abs tf = run isWord ⟨start, start.length⟩ (ops.map specOf) ∧ tf.cursor ≤ tf.value.length ∧
+      tf.n = tf.value.length := by
+  intro tf0 tf
+  have h0 : Lemmas.Editor.Inv (TextField.new : TextField.TF G) := ⟨rfl, Nat.le_refl _⟩
+  have h1 := insert_refines isWord TextField.new start h0
+  have h2 := tfRun_refines isWord ops tf0 h1.1
+  refine ⟨?_, h2.1.2, h2.1.1⟩
+  rw [h2.2, h1.2]
+  simp [abs, TextField.new, apply]
+
+/-- `callbacks_exact` (TextField): for every key event, OnSubmit fires iff the event means Enter
+(with the line), and OnChange fires iff the value changed (with the new value) — exactly the ideal
+editor's callback log. -/
+theorem textfield_callbacks_exact {G : Type} [DecidableEq G] (isWord : G → Bool)
+    (tf : TextField.TF G) (ev : TextField.KeyEv G) (h : Inv tf) :
+    (TextField.handleKey tf ev).2.map absCall = callbacks isWord (abs tf) (meaningOf ev) :=
+  (handleKey_refines isWord tf ev h).2.2
+
+/-- Non-vacuity / the F46 scenario on the fixed code: "ab", BackSpace, Ctrl+e, "x", Ctrl+b, "y"
+gives "ayx". -/
+example :
+    let bs : TextField.KeyEv Nat := ⟨false, [], false, false, false, false, false, true, false, false⟩
+    let ce : TextField.KeyEv Nat := ⟨false, [], false, true, false, false, false, false, false, false⟩
+    let cb : TextField.KeyEv Nat := ⟨false, [], false, false, false, true, false, false, false, false⟩
+    let ty (g : Nat) : TextField.KeyEv Nat := ⟨false, [g], false, false, false, false, false, false, false, false⟩
+    (tfRun (TextField.insertString TextField.new [0, 1])
+      [.key bs, .key ce, .key (ty 7), .key cb, .key (ty 8)]).value = [0, 8, 7] := by decide
 
 end VaxisModel.Props.C17
